@@ -57,6 +57,46 @@ void K_P2PInner(Kernel *self, const LeafHeader *symb, const long *idx, const str
   if(nb > 0) { long k = nondet_long(); __CPROVER_assume(0 <= k && k < nb); rhs->d[0][k] = nondet_long(); rhs->d[NBRHS - 1][k] = nondet_long(); }
 }
 
+
+/* ---- logging models of the remaining operators (used by the bounded wrapper harnesses) */
+#define LOGCAP 4
+#define SRCCAP 4
+struct klog { int op; const void *symb; const void *out; const void *in; long level; long nb; const void *src[SRCCAP]; long code[SRCCAP]; const void *idx_s, *idx_t; long code1; };
+struct klog glog[LOGCAP]; long glog_n;
+static inline struct klog *klog_new(int op) { __CPROVER_assert(glog_n < LOGCAP, "model: kernel call log capacity sufficient"); struct klog *l = &glog[glog_n++]; l->op = op; return l; }
+void K_M2M(Kernel *self, const CellHeader *symb, const long level, const struct std_vector_cVerifMultipole_p *children, struct VerifMultipole *out, const long *positions, const long nb)
+{
+  struct klog *l = klog_new(3); l->symb = symb; l->out = out; l->level = level; l->nb = nb;
+  __CPROVER_assert(nb == (long)children->size && nb <= SRCCAP, "C02: the child count handed to M2M equals the number of children in the list");
+  for(long k = 0; k < SRCCAP; ++k) if(k < nb) { l->src[k] = children->data[k]; l->code[k] = positions[k]; }
+  out->m0 = nondet_long();
+}
+void K_M2L(Kernel *self, const CellHeader *symb, const long level, const struct std_vector_cVerifMultipole_p *srcs, const long *positions, const long nb, struct VerifLocal *out)
+{
+  struct klog *l = klog_new(4); l->symb = symb; l->out = out; l->level = level; l->nb = nb;
+  __CPROVER_assert(nb == (long)srcs->size && nb <= SRCCAP, "C02: the source count handed to M2L equals the number of sources in the list");
+  for(long k = 0; k < SRCCAP; ++k) if(k < nb) { l->src[k] = srcs->data[k]; l->code[k] = positions[k]; }
+  out->l0 = nondet_long();
+}
+void K_L2L(Kernel *self, const CellHeader *symb, const long level, const struct VerifLocal *parent, struct std_vector_VerifLocal_p *children, const long *positions, const long nb)
+{
+  struct klog *l = klog_new(5); l->symb = symb; l->in = parent; l->level = level; l->nb = nb;
+  __CPROVER_assert(nb == (long)children->size && nb <= SRCCAP, "C02: the child count handed to L2L equals the number of children in the list");
+  for(long k = 0; k < SRCCAP; ++k) if(k < nb) { l->src[k] = children->data[k]; l->code[k] = positions[k]; children->data[k]->l0 = nondet_long(); }
+}
+void K_P2P(Kernel *self, const LeafHeader *ssymb, const long *sidx, const struct ARR_CDATA *sdata, struct ARR_RHS *srhs, const long snb,
+           const LeafHeader *tsymb, const long *tidx, const struct ARR_CDATA *tdata, struct ARR_RHS *trhs, const long tnb, const long code)
+{
+  struct klog *l = klog_new(1); l->symb = tsymb; l->in = ssymb; l->idx_s = sidx; l->idx_t = tidx; l->nb = snb; l->level = tnb; l->code1 = code;
+  l->src[0] = sdata->d[0]; l->src[1] = tdata->d[0]; l->src[2] = srhs->d[0]; l->src[3] = trhs->d[0];
+}
+void K_P2PTsm(Kernel *self, const LeafHeader *ssymb, const long *sidx, const struct ARR_CDATA *sdata, const long snb,
+              const LeafHeader *tsymb, const long *tidx, const struct ARR_CDATA *tdata, struct ARR_RHS *trhs, const long tnb, const long code)
+{
+  struct klog *l = klog_new(7); l->symb = tsymb; l->in = ssymb; l->idx_s = sidx; l->idx_t = tidx; l->nb = snb; l->level = tnb; l->code1 = code;
+  l->src[0] = sdata->d[0]; l->src[1] = tdata->d[0]; l->src[3] = trhs->d[0];
+}
+
 #define GK_ASSIGNS gk_hits, gk_ok, gk_calls
 #define W_LEAF_OK(pg) (0 <= ghost_W && ghost_W < PG_N(pg))
 
@@ -160,6 +200,232 @@ void h_p2pinner(void)
   if(W_LEAF_OK(&pg)) { gx_symb = &PG_LEAVES(&pg)[ghost_W]; }
   set_leaf_expect(&pg);
   KI_P2PInner(&ki, &k, &pg);
+  CANARY();
+}
+
+/* =====================================================================================
+ * BOUNDED STAND-INS for the wrappers whose loops carry no loop contract (M2M, L2L, M2LInGroup, M2LBetweenGroups,
+ * P2PInGroup, P2PBetweenGroups, P2PBetweenGroupsTsm): real extracted bodies of the wrapper AND of every container
+ * accessor / lookup it uses; groups of exactly BN cells with symbolic sorted indices, interaction lists of CFG_NL
+ * entries (enumerated 0..4) with symbolic contents satisfying the list builders' guarantees; complete unwinding.
+ * The kernel model logs every call; the assertions quantify over the list / the cells with constant-bound loops. */
+#ifndef CFG_NL
+#define CFG_NL 2
+#endif
+#ifdef BOUNDED_KI
+/* contract-derived bodies of the space-index functions (their L1 contracts are proved in unit morton) */
+long TbfMortonSpaceIndex__getParentIndex(const struct TbfMortonSpaceIndex *self, long inIndex) { return inIndex >> DIM; }
+long TbfMortonSpaceIndex__getNbChildrenPerCell(void) { return 1L << DIM; }
+long TbfMortonSpaceIndex__childPositionFromParent(const struct TbfMortonSpaceIndex *self, const long inIndexChild) { return inIndexChild & ((1L << DIM) - 1); }
+long TbfMortonSpaceIndex__getNbInteractionsPerCell(void) { return DIM == 1 ? 3 : DIM == 2 ? 27 : 189; }
+#endif
+#define BN 3
+#define BMAXIDX (1L << (DIM * 2))
+static void bk_cells(CellGroup *g, long idx[BN])
+{
+  mk_cells(g, BN);
+  __CPROVER_assume(0 <= idx[0] && idx[0] < idx[1] && idx[1] < idx[2] && idx[2] < BMAXIDX);
+  CellsHeader *h = (CellsHeader *)g->objectData.blockRawPtrs[0];
+  CellHeader *c = (CellHeader *)g->objectData.blockRawPtrs[1];
+  for(int i = 0; i < BN; ++i) c[i].spaceIndex = idx[i];
+  h->startingSpaceIndex = idx[0]; h->endingSpaceIndex = idx[BN - 1];
+}
+static void bk_parts(PartGroup *g, long idx[BN])
+{
+  mk_parts(g, BN, 2 * BN);
+  __CPROVER_assume(0 <= idx[0] && idx[0] < idx[1] && idx[1] < idx[2] && idx[2] < BMAXIDX);
+  PartsHeader *h = (PartsHeader *)g->objectData.blockRawPtrs[0];
+  LeafHeader *c = (LeafHeader *)g->objectData.blockRawPtrs[1];
+  for(int i = 0; i < BN; ++i) { c[i].spaceIndex = idx[i]; c[i].nbParticles = 2; c[i].offSet = 2 * i; }
+  h->startingSpaceIndex = idx[0]; h->endingSpaceIndex = idx[BN - 1];
+}
+static long bk_pos(const long idx[BN], long q) { for(long i = 0; i < BN; ++i) if(idx[i] == q) return i; return -1; }
+static void bk_list(struct std_vector_TbfXtoXInteraction *v, struct TbfVectorView *view, struct TbfXtoXInteraction e[4], const long tidx[BN], long codemax)
+{
+  /* what the per-group list builders guarantee (C11-L2): target position in range and consistent with the target
+   * index, position codes in range, no two entries with the same (target, source) pair */
+  for(int i = 0; i < 4; ++i) if(i < CFG_NL) {
+    __CPROVER_assume(0 <= e[i].globalTargetPos && e[i].globalTargetPos < BN && e[i].indexTarget == tidx[e[i].globalTargetPos]);
+    __CPROVER_assume(0 <= e[i].arrayIndexSrc && e[i].arrayIndexSrc < codemax && 0 <= e[i].indexSrc && e[i].indexSrc < BMAXIDX);
+    for(int j = 0; j < i; ++j) __CPROVER_assume(e[j].globalTargetPos != e[i].globalTargetPos || e[j].indexSrc != e[i].indexSrc);
+  }
+  v->data = e; v->size = CFG_NL; v->cap = 4;
+  view->vector = v; view->offset = 0; view->length = CFG_NL;
+}
+#define POW7D 343
+#define POW3D 27
+
+/*@ harness bounded_m2l_between plain=1 unwind=6 objbits=14 mem=24000 enumerate=CFG_NL:0..4 defs=BOUNDED_KI bounded=groups=3cells,list<=4 props=C01,C02,C08,C09,C15 timeout=900 */
+void bounded_m2l_between(void)
+{
+  KI ki; Kernel k; CellGroup tg, sg; long ti[BN], si[BN], level;
+  bk_cells(&tg, ti); bk_cells(&sg, si);
+  struct std_vector_TbfXtoXInteraction v; struct TbfVectorView view; struct TbfXtoXInteraction e[4];
+  bk_list(&v, &view, e, ti, POW7D);
+  glog_n = 0;
+  KI_M2LBetweenGroups(&ki, level, &k, &tg, &sg, &view);
+  long delivered = 0;
+  for(int c = 0; c < LOGCAP; ++c) if(c < glog_n) {
+    __CPROVER_assert(glog[c].op == 4 && glog[c].nb >= 1 && glog[c].level == level, "C02: M2L calls carry the list's level and are never empty");
+    long tp = (const struct VerifLocal *)glog[c].out - CG_LOC(&tg);
+    __CPROVER_assert(0 <= tp && tp < BN && glog[c].symb == (const void *)&CG_CELLS(&tg)[tp], "C02: M2L target local and target header belong to the same cell of the target group");
+    delivered += glog[c].nb;
+  }
+  long expected = 0;
+  for(int i = 0; i < 4; ++i) if(i < CFG_NL) {
+    long sp = bk_pos(si, e[i].indexSrc);
+    long cnt = 0;
+    for(int c = 0; c < LOGCAP; ++c) if(c < glog_n && glog[c].out == (const void *)&CG_LOC(&tg)[e[i].globalTargetPos])
+      for(int q = 0; q < SRCCAP; ++q) if(q < glog[c].nb && sp >= 0 && glog[c].src[q] == (const void *)&CG_MULT(&sg)[sp]) { cnt++; __CPROVER_assert(glog[c].code[q] == e[i].arrayIndexSrc, "C02: every source is delivered with its own position code"); }
+    __CPROVER_assert(cnt == (sp >= 0 ? 1 : 0), "C01: an out-of-group interaction is delivered exactly once iff its source cell exists in the source group");
+    if(sp >= 0) expected++;
+  }
+  __CPROVER_assert(delivered == expected, "C01: nothing else is delivered");
+  CANARY();
+}
+
+/*@ harness bounded_m2l_ingroup plain=1 unwind=6 objbits=14 mem=24000 enumerate=CFG_NL:0..4 defs=BOUNDED_KI bounded=group=3cells,list<=4 props=C01,C02,C08,C15 timeout=900 */
+void bounded_m2l_ingroup(void)
+{
+  KI ki; Kernel k; CellGroup tg; long ti[BN], level;
+  bk_cells(&tg, ti);
+  struct std_vector_TbfXtoXInteraction v; struct TbfVectorView view; struct TbfXtoXInteraction e[4];
+  bk_list(&v, &view, e, ti, POW7D);
+  for(int i = 0; i < 4; ++i) if(i < CFG_NL) __CPROVER_assume(bk_pos(ti, e[i].indexSrc) >= 0);   /* in-group list: sources exist (self-inclusion test) */
+  glog_n = 0;
+  KI_M2LInGroup(&ki, level, &k, &tg, &view);
+  long delivered = 0;
+  for(int c = 0; c < LOGCAP; ++c) if(c < glog_n) {
+    __CPROVER_assert(glog[c].op == 4 && glog[c].nb >= 1 && glog[c].level == level, "C02: M2L calls carry the list's level and are never empty");
+    long tp = (const struct VerifLocal *)glog[c].out - CG_LOC(&tg);
+    __CPROVER_assert(0 <= tp && tp < BN && glog[c].symb == (const void *)&CG_CELLS(&tg)[tp], "C02: M2L target local and header belong to the same cell");
+    delivered += glog[c].nb;
+  }
+  for(int i = 0; i < 4; ++i) if(i < CFG_NL) {
+    long sp = bk_pos(ti, e[i].indexSrc), cnt = 0;
+    for(int c = 0; c < LOGCAP; ++c) if(c < glog_n && glog[c].out == (const void *)&CG_LOC(&tg)[e[i].globalTargetPos])
+      for(int q = 0; q < SRCCAP; ++q) if(q < glog[c].nb && glog[c].src[q] == (const void *)&CG_MULT(&tg)[sp]) { cnt++; __CPROVER_assert(glog[c].code[q] == e[i].arrayIndexSrc, "C02: every source is delivered with its own position code"); }
+    __CPROVER_assert(cnt == 1, "C01: every in-group interaction is delivered exactly once");
+  }
+  __CPROVER_assert(delivered == CFG_NL, "C01: nothing else is delivered");
+  CANARY();
+}
+
+static void bk_check_p2p(const struct klog *l, const PartGroup *sg, long sp, const PartGroup *tg, long tp, long code, _Bool tsm)
+{
+  __CPROVER_assert(l->in == (const void *)&PG_LEAVES(sg)[sp] && l->symb == (const void *)&PG_LEAVES(tg)[tp], "C02: P2P receives the headers of the listed source and target leaves");
+  __CPROVER_assert(l->idx_s == (const void *)(PG_PIDX(sg) + PG_OFF(sg, sp)) && l->idx_t == (const void *)(PG_PIDX(tg) + PG_OFF(tg, tp)), "C02: P2P receives each leaf's own particle indices");
+  __CPROVER_assert(l->nb == PG_CNT(sg, sp) && l->level == PG_CNT(tg, tp) && l->code1 == code, "C02: P2P receives each leaf's own particle count and the entry's position code");
+  __CPROVER_assert(l->src[0] == (const void *)PG_DATA_PTR(sg, sp, 0) && l->src[1] == (const void *)PG_DATA_PTR(tg, tp, 0) && l->src[3] == (const void *)PG_RHS_PTR(tg, tp, 0) && (tsm || l->src[2] == (const void *)PG_RHS_PTR(sg, sp, 0)), "C02: P2P receives each leaf's own data and result arrays");
+}
+/*@ harness bounded_p2p_between plain=1 unwind=6 objbits=14 mem=24000 enumerate=CFG_NL:0..3 defs=BOUNDED_KI bounded=groups=3leaves,list<=3 props=C01,C02,C08,C15 timeout=900 */
+void bounded_p2p_between(void)
+{
+  KI ki; Kernel k; PartGroup tg, sg; long ti[BN], si[BN];
+  bk_parts(&tg, ti); bk_parts(&sg, si);
+  struct std_vector_TbfXtoXInteraction v; struct TbfVectorView view; struct TbfXtoXInteraction e[4];
+  bk_list(&v, &view, e, ti, POW3D);
+  glog_n = 0;
+  KI_P2PBetweenGroups(&ki, &k, &sg, &tg, &view);
+  long expected = 0;
+  for(int i = 0; i < 4; ++i) if(i < CFG_NL) {
+    long sp = bk_pos(si, e[i].indexSrc), cnt = 0;
+    for(int c = 0; c < LOGCAP; ++c) if(c < glog_n && sp >= 0 && glog[c].in == (const void *)&PG_LEAVES(&sg)[sp] && glog[c].symb == (const void *)&PG_LEAVES(&tg)[e[i].globalTargetPos]) { cnt++; bk_check_p2p(&glog[c], &sg, sp, &tg, e[i].globalTargetPos, e[i].arrayIndexSrc, 0); }
+    __CPROVER_assert(cnt == (sp >= 0 ? 1 : 0), "C01: an out-of-group neighbour pair interacts exactly once iff the source leaf exists");
+    if(sp >= 0) expected++;
+  }
+  __CPROVER_assert(glog_n == expected, "C01: no other direct interaction happens");
+  CANARY();
+}
+/*@ harness bounded_p2p_between_tsm plain=1 unwind=6 objbits=14 mem=24000 enumerate=CFG_NL:0..3 defs=BOUNDED_KI bounded=groups=3leaves,list<=3 props=C09,C02,C15 timeout=900 */
+void bounded_p2p_between_tsm(void)
+{
+  KI ki; Kernel k; PartGroup tg, sg; long ti[BN], si[BN];
+  bk_parts(&tg, ti); bk_parts(&sg, si);
+  struct std_vector_TbfXtoXInteraction v; struct TbfVectorView view; struct TbfXtoXInteraction e[4];
+  bk_list(&v, &view, e, ti, POW3D);
+  glog_n = 0;
+  KI_P2PBetweenGroupsTsm(&ki, &k, &sg, &tg, &view);
+  long expected = 0;
+  for(int i = 0; i < 4; ++i) if(i < CFG_NL) {
+    long sp = bk_pos(si, e[i].indexSrc), cnt = 0;
+    for(int c = 0; c < LOGCAP; ++c) if(c < glog_n && sp >= 0 && glog[c].in == (const void *)&PG_LEAVES(&sg)[sp] && glog[c].symb == (const void *)&PG_LEAVES(&tg)[e[i].globalTargetPos]) { cnt++; bk_check_p2p(&glog[c], &sg, sp, &tg, e[i].globalTargetPos, e[i].arrayIndexSrc, 1); __CPROVER_assert(glog[c].op == 7, "C09: the target/source wrapper uses the one-sided operator"); }
+    __CPROVER_assert(cnt == (sp >= 0 ? 1 : 0), "C09: each listed (target, source) leaf pair interacts exactly once iff the source leaf exists");
+    if(sp >= 0) expected++;
+  }
+  __CPROVER_assert(glog_n == expected, "C09: no other direct interaction happens");
+  CANARY();
+}
+/*@ harness bounded_p2p_ingroup plain=1 unwind=6 objbits=14 mem=24000 enumerate=CFG_NL:0..3 defs=BOUNDED_KI bounded=group=3leaves,list<=3 props=C01,C02,C08,C15 timeout=900 */
+void bounded_p2p_ingroup(void)
+{
+  KI ki; Kernel k; PartGroup tg; long ti[BN];
+  bk_parts(&tg, ti);
+  struct std_vector_TbfXtoXInteraction v; struct TbfVectorView view; struct TbfXtoXInteraction e[4];
+  bk_list(&v, &view, e, ti, POW3D);
+  for(int i = 0; i < 4; ++i) if(i < CFG_NL) __CPROVER_assume(bk_pos(ti, e[i].indexSrc) >= 0);
+  glog_n = 0;
+  KI_P2PInGroup(&ki, &k, &tg, &view);
+  for(int i = 0; i < 4; ++i) if(i < CFG_NL) {
+    long sp = bk_pos(ti, e[i].indexSrc), cnt = 0;
+    for(int c = 0; c < LOGCAP; ++c) if(c < glog_n && glog[c].in == (const void *)&PG_LEAVES(&tg)[sp] && glog[c].symb == (const void *)&PG_LEAVES(&tg)[e[i].globalTargetPos]) { cnt++; bk_check_p2p(&glog[c], &tg, sp, &tg, e[i].globalTargetPos, e[i].arrayIndexSrc, 0); }
+    __CPROVER_assert(cnt == 1, "C01: every in-group neighbour pair interacts exactly once");
+  }
+  __CPROVER_assert(glog_n == CFG_NL, "C01: no other direct interaction happens");
+  CANARY();
+}
+
+/* M2M / L2L: lower group = 3 consecutive cells of a level, upper group = 3 consecutive cells of the level above,
+ * with the tree-closure precondition stated finitely: every lower cell's parent that falls inside the upper
+ * group's range is a cell of the upper group, every upper cell inside the parents' range of the lower group has a
+ * child in it, and at least one parent-child link exists (what the pass guarantees for the pairs it visits). */
+static _Bool bk_closure(const long lo[BN], const long up[BN])
+{
+  _Bool link = 0;
+  for(int i = 0; i < BN; ++i) { long p = lo[i] >> DIM; if(up[0] <= p && p <= up[BN - 1]) { if(bk_pos(up, p) < 0) return 0; link = 1; } }
+  for(int j = 0; j < BN; ++j) if((lo[0] >> DIM) <= up[j] && up[j] <= (lo[BN - 1] >> DIM)) { _Bool has = 0; for(int i = 0; i < BN; ++i) if((lo[i] >> DIM) == up[j]) has = 1; if(!has) return 0; }
+  return link;
+}
+/*@ harness bounded_m2m plain=1 unwind=6 objbits=14 mem=24000 defs=BOUNDED_KI bounded=groups=3cells props=C01,C02,C08,C15 timeout=900 */
+void bounded_m2m(void)
+{
+  KI ki; Kernel k; CellGroup lg, ug; long li[BN], ui[BN], level;
+  bk_cells(&lg, li); bk_cells(&ug, ui);
+  __CPROVER_assume(ui[BN - 1] < (1L << DIM) && bk_closure(li, ui));
+  glog_n = 0;
+  KI_M2M(&ki, level, &k, &lg, &ug);
+  for(int i = 0; i < BN; ++i) {
+    long pp = bk_pos(ui, li[i] >> DIM), cnt = 0;
+    for(int c = 0; c < LOGCAP; ++c) if(c < glog_n)
+      for(int q = 0; q < SRCCAP; ++q) if(q < glog[c].nb && glog[c].src[q] == (const void *)&CG_MULT(&lg)[i]) {
+        cnt++;
+        __CPROVER_assert(pp >= 0 && glog[c].out == (const void *)&CG_MULT(&ug)[pp] && glog[c].symb == (const void *)&CG_CELLS(&ug)[pp], "C02: a child is handed to M2M together with its own parent");
+        __CPROVER_assert(glog[c].code[q] == (li[i] & ((1L << DIM) - 1)) && glog[c].level == level, "C02: the child position code is the child's octant; the level is the parent's");
+      }
+    __CPROVER_assert(cnt == (pp >= 0 ? 1 : 0), "C01: every child whose parent is in the upper group is handed over exactly once, the others never");
+  }
+  for(int c = 0; c < LOGCAP; ++c) if(c < glog_n) __CPROVER_assert(glog[c].op == 3 && 1 <= glog[c].nb && glog[c].nb <= (1L << DIM), "C02: M2M is never called with an empty child list");
+  CANARY();
+}
+/*@ harness bounded_l2l plain=1 unwind=6 objbits=14 mem=24000 defs=BOUNDED_KI bounded=groups=3cells props=C01,C02,C08,C15 timeout=900 */
+void bounded_l2l(void)
+{
+  KI ki; Kernel k; CellGroup lg, ug; long li[BN], ui[BN], level;
+  bk_cells(&lg, li); bk_cells(&ug, ui);
+  __CPROVER_assume(ui[BN - 1] < (1L << DIM) && bk_closure(li, ui));
+  glog_n = 0;
+  KI_L2L(&ki, level, &k, &ug, &lg);
+  for(int i = 0; i < BN; ++i) {
+    long pp = bk_pos(ui, li[i] >> DIM), cnt = 0;
+    for(int c = 0; c < LOGCAP; ++c) if(c < glog_n)
+      for(int q = 0; q < SRCCAP; ++q) if(q < glog[c].nb && glog[c].src[q] == (const void *)&CG_LOC(&lg)[i]) {
+        cnt++;
+        __CPROVER_assert(pp >= 0 && glog[c].in == (const void *)&CG_LOC(&ug)[pp] && glog[c].symb == (const void *)&CG_CELLS(&ug)[pp], "C02: a child is handed to L2L together with its own parent");
+        __CPROVER_assert(glog[c].code[q] == (li[i] & ((1L << DIM) - 1)) && glog[c].level == level, "C02: the child position code is the child's octant; the level is the parent's");
+      }
+    __CPROVER_assert(cnt == (pp >= 0 ? 1 : 0), "C01: every child whose parent is in the upper group receives exactly one L2L, the others none");
+  }
+  for(int c = 0; c < LOGCAP; ++c) if(c < glog_n) __CPROVER_assert(glog[c].op == 5 && 1 <= glog[c].nb && glog[c].nb <= (1L << DIM), "C02: L2L is never called with an empty child list");
   CANARY();
 }
 #endif
